@@ -1,4 +1,5 @@
 import BobModel.Model.StringParser
+import BobModel.Model.SubstSpec
 import BobModel.Util.Proto
 open Lean Proto StringParser
 
@@ -8,7 +9,10 @@ requests:
  {"op":"evalstr", ... "text": cond}
  {"op":"evalif", ... "expr": tree}   tree = {"lit":s,"subst":b} | {"call":f,"args":[..]} | {"not":e} | {"str":op,"l":..,"r":..} | {"bool":op,"l":..,"r":..}
  {"op":"isfalse","text":s}
-replies: {"ok": value} | {"err": kind}
+ {"op":"speceval", ... "frags": tree}   the documented language (Model/SubstSpec.lean), tree as in harness/props/c17.py:
+      ["lit",c] | ["esc",c] | ["sq",s] | ["dq",[..]] | ["bare",name] | ["var",[..]] |
+      ["dflt",[name..],colon,[..]] | ["altv",[name..],colon,[..]] | ["call",[[word..],..]]
+replies: {"ok": value} | {"err": kind}; speceval adds "text" (SubstSpec.render) and "wf" (SubstSpec.WF)
 -/
 
 def kvList (j : Json) : List (Str × Str) :=
@@ -45,6 +49,46 @@ partial def exprOf (j : Json) : IfExpr :=
         | .ok (.str op) => .strOp op (exprOf (j.getObjValD "l")) (exprOf (j.getObjValD "r"))
         | _ => .boolOp (getStr j "bool") (exprOf (j.getObjValD "l")) (exprOf (j.getObjValD "r"))
 
+instance : Inhabited SubstSpec.Frag := ⟨.lit ' '⟩
+
+def firstChar (j : Json) : Char :=
+  match j with
+  | .str s => s.toList.headD ' '
+  | _ => ' '
+
+def strOf (j : Json) : Str :=
+  match j with
+  | .str s => s.toList
+  | _ => []
+
+def arrOf (j : Json) : List Json :=
+  match j with
+  | .arr a => a.toList
+  | _ => []
+
+partial def fragOf (j : Json) : SubstSpec.Frag :=
+  match arrOf j with
+  | .str "lit" :: c :: _ => .lit (firstChar c)
+  | .str "esc" :: c :: _ => .esc (firstChar c)
+  | .str "sq" :: s :: _ => .sq (strOf s)
+  | .str "dq" :: fs :: _ => .dq ((arrOf fs).map fragOf)
+  | .str "bare" :: n :: _ => .bare (strOf n)
+  | .str "var" :: n :: _ => .var ((arrOf n).map fragOf)
+  | .str "dflt" :: n :: .bool c :: d :: _ => .dflt ((arrOf n).map fragOf) c ((arrOf d).map fragOf)
+  | .str "altv" :: n :: .bool c :: a :: _ => .altv ((arrOf n).map fragOf) c ((arrOf a).map fragOf)
+  | .str "call" :: ws :: _ =>
+    match (arrOf ws).map fun w => (arrOf w).map fragOf with
+    | [] => .call [] []
+    | f :: args => .call f args
+  | _ => .lit ' '
+
+def specReply (cfg : Cfg) (fs : List SubstSpec.Frag) : Json :=
+  let extra := [("text", Json.str (String.ofList (SubstSpec.render fs))),
+                ("wf", Json.bool (SubstSpec.wfL SubstSpec.ctxTop fs))]
+  match SubstSpec.eval cfg fs with
+  | .ok v => Json.mkObj (("ok", Json.str (String.ofList v)) :: extra)
+  | .error e => Json.mkObj (("err", Json.str (errName e)) :: extra)
+
 def reply (r : Except PErr Json) : Json :=
   match r with
   | .ok v => Json.mkObj [("ok", v)]
@@ -56,5 +100,6 @@ def main : IO Unit := runPure fun j =>
   | "subst" => reply ((substitute cfg (getStr j "text").toList).map fun s => Json.str (String.ofList s))
   | "evalstr" => reply ((evaluateStr cfg (getStr j "text").toList).map Json.bool)
   | "evalif" => reply (((exprOf (j.getObjValD "expr")).eval cfg).map Json.bool)
+  | "speceval" => specReply cfg ((getArr j "frags").map fragOf)
   | "isfalse" => Json.mkObj [("ok", Json.bool (isFalse (getStr j "text").toList))]
   | _ => err "bad-op"
